@@ -194,6 +194,77 @@ CHECKS = [
         "Lean 4 proof over a hand-written model; correspondence (differential) tie; exhaustive enumeration of small spaces; "
         "failing-input search",
         "DESIGN.md §7 C07"),
+    chk("C11",
+        "Lean theorems over the WHOLE finite grid reduction(31) x input dtype(13) x dtype=(4) x fill_value(5) x min_count x engine "
+        "(kernel-checked enumeration; the grid is the property's quantifier over dtypes): the dtype model of groupby_reduce "
+        "(hand-written entry/exit logic + _initialize_aggregation table regenerated from /repo) equals NumPy's convention "
+        "(requested dtype, else NumPy default of the reduction, widened by result_type to hold the fill) outside two named deviation "
+        "cells (counterexample theorems), never refuses inside NumPy's domain, is engine-independent and min_count-independent "
+        "(one documented cell), accumulates integers in 64-bit dtypes, and is stable under the final reindex; the spec's promotion "
+        "rules are tied to NumPy's own tables (result_type, min_scalar_type, iinfo, np.<reduction>(a).dtype). Structural theorems "
+        "(all label lists / chunkings): announced group-axis chunks = groups returned by the blocks for blockwise, reindexed "
+        "map-reduce and cohorts. Differential execution: every grid cell x engine eagerly and on the dask plans, comparing dtype / "
+        "shape / chunks / type(_meta) announced before compute with the computed array and every computed block, with the Lean "
+        "model, and with an oracle computed by NumPy itself.",
+        "Lean 4 proof by kernel-checked enumeration of a generated table + structural proofs; correspondence (differential) tie; "
+        "metadata truthfulness observed on real dask graphs", "DESIGN.md §7 C11",
+        note=TB + " That every plan really ends in the final cast, and announced == computed metadata of real dask arrays, are "
+        "runtime facts: observed on every cell, not proved. Values of the fills/dtypes outside the 13 x 4 x 5 grid are not covered."),
+    chk("C15",
+        "PARTIAL. Lean theorems over an executable metadata model of flox.xarray.xarray_reduce (grouper_dims, dim_tuple for "
+        "dim=None/.../explicit, xr.broadcast, the plain-reduction shortcut, missing_dim pass-through, apply_ufunc's broadcast "
+        "dims ++ output core dims, <name>_bins, and _restore_dim_order as a stable sort by lookup_order), for ALL dims lists and "
+        "all choices of reduced dims: the group dim takes the place of the grouper's dim (DataArray, 1-D grouper), comes first "
+        "in a Dataset, last for N-D groupers; on the supported calls the dims of every result variable, the reduced dims and "
+        "the surviving coordinates are those of native xarray's groupby (rule written as the specification); every restriction is "
+        "shown necessary by a counterexample theorem (findings C15-F1, F4, F6, F7 and three order conventions); the skipna -> nan* "
+        "renaming equals a table recorded from the real wrapper (all reductions x 8 dtype kinds x skipna). Values, coordinates, "
+        "names, attrs and dtype are NOT modelled: they are compared by differential execution of xarray_reduce against native "
+        "xarray groupby with flox disabled (DataArrays/Datasets of 1-4 dims in random order, 1-D/2-D/external/binned/several "
+        "groupers, dim None/.../subset, skipna, min_count, keep_attrs, dask), against groupby_reduce on the transposed underlying "
+        "arrays, and against 'unchanged' for pass-through variables; the Lean model and spec are tied to the real flox / native "
+        "xarray dims on every generated case and on an exhaustive enumeration of all 1-3-D DataArray dim orders x groupers x dims.",
+        "Lean 4 proof over a hand-written metadata model + generated table; correspondence (differential) tie with exhaustive "
+        "small-space enumeration; native xarray as independent oracle; failing-input search",
+        "DESIGN.md §7 C15"),
+    chk("C19",
+        "Lean model of the validation / planning chain of groupby_reduce (`_validate_reindex`, `_choose_method`, `_choose_engine`, the "
+        "entry guards and the guards at the top of dask_groupby_agg) on an abstract configuration cell; the three decision functions "
+        "are proved equal to tables regenerated from the live code (decide +kernel), and theorems proved for every cell by exhaustive "
+        "kernel evaluation: the chain never fails an assertion on aligned input unless more axes than label dimensions are requested "
+        "(partial; counterexample theorem = finding C19-F6), every accepted plan satisfies the strategy-specific preconditions "
+        "(cohorts never with blockwise reindexing, arg-reductions never on the flox engine / blockwise only on one block, ...), "
+        "method=None is accepted wherever method='map-reduce' is (and only there for reductions with a chunk function). The "
+        "data-dependent part (no internal error at compute time, values = NumPy oracle, auto = map-reduce, cohorts/blockwise match or "
+        "are refused) is checked by differential execution over the enumerated cells (reduction x engine x method x reindex x label "
+        "kind x label/value ndim x axis x expected_groups x layout) against the Lean model (call-time outcome and resolved plan), a "
+        "NumPy oracle and the Lean specification `Spec19.violations`.", CORR, "DESIGN.md §7 C19",
+        note=TB + " Behaviour inside graph construction and at compute time is observed on the enumerated cells, not proved; six open "
+        "findings (C19-F1..F6) are recorded in KNOWN_FINDINGS.json."),
+    chk("C14",
+        "Lean theorems over a model of flox's process state (registry of blueprints with the fields _initialize_aggregation and "
+        "groupby_scan write, the cachey / lru memo tables keyed by the token of the full argument, evictions): after ANY sequence "
+        "of calls from any state the registry is unchanged and a caller's Aggregation object is returned untouched "
+        "(registry_invariant, arguments_unchanged; the model's copy switch is regenerated from behavioural probes of the live "
+        "code); a memoised function equals the pure function for every sound table and eviction (memo_refines); every call's "
+        "result after any history equals a function of its arguments and the pristine registry (history_independent, "
+        "last_call_eq_first_call, trace_eq_spec); necessity shown by kernel-checked counterexamples (no copy: `nanlen` "
+        "accumulates; a key ignoring the labels serves stale chunks). Graphs as finite maps with union = later insertion wins: "
+        "if two graphs agree on shared keys every key evaluates in the union, in either order, to its stand-alone value "
+        "(merge_safe, any semantics, any depth); the table of ingredients hashed into each kind of task name covers what the "
+        "tasks depend on (tokenCovers_holds) and agrees with names produced by the real API (generated_rows_ok, regenerated on "
+        "every run), hence graphs of any two configurations are compatible (names_compatible, names_merge_safe); counterexamples "
+        "for incompatible graphs and for a token that omits min_count. PARTIAL in one respect: tokens are modelled as injective "
+        "on what flox hands to dask; flox hands Aggregation fields over un-normalised, so ndarray-valued finalize_kwargs enter "
+        "the token through repr() (finding C14-F1, found and isolated by the names stream). Tie: differential execution - "
+        "random histories of real API calls with registry snapshots, argument-buffer hashes and probes compared with "
+        "pristine processes; every recorded stateful internal call replayed in the Lean model and re-derived by a pure-Python "
+        "oracle; pairs/triples of lazy results differing in one ingredient computed together in all orders vs alone with all "
+        "tasks executed and shared keys compared; the real graphs' skeletons union-evaluated in Lean.",
+        "Lean 4 proof over a hand-written state / naming / graph-union model + generated tables (token fields, copy sites); "
+        "correspondence (differential) tie incl. exhaustive enumeration of one-ingredient pairs over small grids; pristine-process "
+        "references; failing-input search",
+        "DESIGN.md §7 C14"),
 ]
 
 _PENDING = "check not built yet in this round (planned: Lean model + correspondence, see DESIGN.md §7)"
